@@ -126,6 +126,7 @@ class Ctx:
         }
         self.failure: Optional[dict] = None  # smallest failing case so far
         self._calls_after_failure = 0
+        self.case_timeout = CASE_TIMEOUT_S  # CPU seconds per oracle call; a check may lower it (mod.CASE_TIMEOUT_S)
         self.shrink_budget = 400 if tier == "quick" else 1500
         self.t0 = time.time()
         self.budget_s = float(
@@ -180,7 +181,7 @@ class Ctx:
             # A case normally costs milliseconds; CASE_TIMEOUT_S (150 s) without returning is
             # reported as non-termination of the code under test.  Not shrunk (each attempt
             # would cost the full timeout).
-            v = Violation("hang", f"no result within {CASE_TIMEOUT_S}s of CPU time (non-termination)", case)
+            v = Violation("hang", f"no result within {self.case_timeout}s of CPU time (non-termination)", case)
             if v.sig in self.known_sigs:
                 self.excluded_known[v.sig] += 1
                 return
@@ -207,7 +208,7 @@ class Ctx:
         # CPU time of this process (ITIMER_PROF), not wall-clock time: a loaded machine can starve a worker
         # for minutes, which must never look like non-termination; a real endless loop burns CPU
         signal.signal(signal.SIGPROF, _alarm)
-        signal.setitimer(signal.ITIMER_PROF, CASE_TIMEOUT_S)
+        signal.setitimer(signal.ITIMER_PROF, self.case_timeout)
         try:
             return fn(*args)
         finally:
@@ -305,6 +306,7 @@ def _worker(args):
     try:
         mod = importlib.import_module(modname)
         ctx = Ctx(prop, tier, seed, shard, nshards)
+        ctx.case_timeout = getattr(mod, "CASE_TIMEOUT_S", ctx.case_timeout)
         mod.shard(ctx)
         return ctx.result()
     except BaseException as e:  # harness error inside the worker
@@ -388,10 +390,16 @@ def replay_known(mod, prop, tier, seed) -> List[str]:
         if k.get("property") != prop or k.get("status", "open") != "open":
             continue
         ctx = Ctx(prop, tier, seed, 0, 1)
+        ctx.case_timeout = getattr(mod, "CASE_TIMEOUT_S", ctx.case_timeout)
         ctx.known_sigs = set()
         case = k["case"]
         try:
-            mod.replay(ctx, case)
+            ctx.timed(mod.replay, ctx, case)
+        except CaseTimeout:
+            if k["signature"].startswith("hang"):
+                lines.append(f"KNOWN-FINDING: property={prop} {k['what']}")
+            else:
+                raise Violation("hang", f"replaying the known finding {k['signature']} used more than {ctx.case_timeout}s of CPU time", case)
         except Violation as v:
             if v.sig == k["signature"]:
                 lines.append(f"KNOWN-FINDING: property={prop} {k['what']}")
